@@ -45,9 +45,25 @@ engine recalculates only then):
  * a failed bundle must leave nothing behind: after every rejected bundle the history applies
    [Calculate]; a trigger cell evaluated there (or by whatever bundle follows a failed one) was not
    written or recomputed by that bundle.
+READERS of trigger columns.  Which trigger cells are recalculated must not depend on who READS the
+   column: a formula column `$B` whose id sorts BEFORE the trigger column's (the engine evaluates the
+   work items in name order, so the reader pulls B up through a nested
+   `_recompute_step(allow_evaluation=False)` BEFORE B's own scheduled evaluation), one that sorts
+   after it, chains of such readers, `lookupRecords`/`lookupOne` keyed on the trigger column (the
+   `#lookup#B` index node is always evaluated first and reads B) from the same and from another
+   table, and a summary table grouped by the trigger column (its `#summary#` helper column reads B).
+   Every document family below therefore comes with and without such readers, for every recalcWhen
+   mode and for self-dependent columns.  Two clauses judge them, both on the real outcome only:
+   (1) the same [must, may] interval as without readers (an explicit value of the last user action
+   wins: a recalculation of such a cell is never attributed to a recorded finding - none of them
+   overrides an exemption set by the last user action); (2) after every successful bundle every
+   reader agrees with the FINAL trigger cells (`$B` copies, lookup counts / first match, summary
+   groups and counts).  The Lean model has no evaluation order (readers are invisible to it): the
+   tie checks that the engine's evaluated set stays the model's, reader or not; that nested first
+   visits do not change the outcome is established by the direct oracle only.
 ASSUMPTIONS: recalcDeps are plain data columns, formula columns over plain data columns, or the
-   column itself (no trigger column depends on another one); values written are of the column's
-   type; row ids within one request are distinct.
+   column itself (no trigger column depends on another one, also not through a reader); values
+   written are of the column's type; row ids within one request are distinct.
 """
 import copy
 import json
@@ -92,15 +108,71 @@ class Live(object):
     self.log = []
     self.tref = None
     self.residue = set()     # rows mentioned by the immediately preceding bundle if it FAILED
+    self.nested = []         # coverage only, see _instrument
+    self._instrument()
 
   def _tracer(self, col, rec):
     if col.table_id == T:
       self.trace.append((col.col_id, int(rec)))
 
+  def _instrument(self):
+    """COVERAGE ONLY (no verdict depends on it): note every FIRST visit of a node of T within a
+    recalculation pass that is a nested one (allow_evaluation=False: some reader pulled the column up
+    before its own work item), and whether rows exempted by the user action were dirty then."""
+    eng = self.doc.engine
+    orig = getattr(eng, "_recompute_step", None)
+    if orig is None or not all(hasattr(eng, a) for a in ("_recompute_done_map", "_prevent_recompute_map", "recompute_map")):
+      return
+    live = self
+    def step(node, *a, **kw):
+      try:
+        allow = kw.get("allow_evaluation", a[0] if a else True)
+        if not allow and node.table_id == T and node not in eng._recompute_done_map:
+          dirty = eng.recompute_map.get(node)
+          if dirty is not None:
+            ex = eng._prevent_recompute_map.get(node) or ()
+            try:
+              hit = any(r in dirty for r in ex)
+            except Exception:
+              hit = bool(ex)
+            live.nested.append((node.col_id, hit))
+      except Exception:
+        pass
+      return orig(node, *a, **kw)
+    eng._recompute_step = step
+
   def apply(self, bundle):
     self.trace = []
+    self.nested = []
     self.log.append(copy.deepcopy(bundle))
     return self.doc.apply(bundle)
+
+  def read_aux(self):
+    """The other user tables: [{"id", "summary_of", "rows", "cols": {colId: values}, "meta": [column records]}]."""
+    eng = self.doc.engine
+    mt = eng.fetch_table("_grist_Tables")
+    tabs = []
+    tref = None
+    for i, r in enumerate(mt.row_ids):
+      tid = mt.columns["tableId"][i]
+      if tid == T:
+        tref = r
+      elif tid:
+        tabs.append((r, tid, mt.columns["summarySourceTable"][i]))
+    if not tabs:
+      return []
+    mc = eng.fetch_table("_grist_Tables_column")
+    c = mc.columns
+    out = []
+    for (r, tid, src) in tabs:
+      if tid not in eng.tables:
+        continue
+      td = eng.fetch_table(tid)
+      meta = [{"ref": mc.row_ids[i], "id": c["colId"][i], "isFormula": bool(c["isFormula"][i]), "formula": c["formula"][i],
+               "type": c["type"][i], "src": c["summarySourceCol"][i]} for i in range(len(mc.row_ids)) if c["parentId"][i] == r]
+      out.append({"id": tid, "summary_of": (src == tref and bool(src)), "rows": list(td.row_ids),
+                  "cols": {k: list(v) for k, v in td.columns.items()}, "meta": meta})
+    return out
 
   def read(self):
     """Schema + data of T as plain python: (cols, rows, cells)."""
@@ -158,6 +230,157 @@ def compute_ups(cols):
   for ref in direct:
     ups[ref] = visit(ref, {ref})
   return ups
+
+
+# ------------------------------------------------------------------------------- readers of trigger columns
+
+RE_DIRECT = re.compile(r"^\$(\w+)$")
+RE_LOOKN = re.compile(r"^len\(T\.lookupRecords\((\w+)=\$(\w+)\)\)$")
+RE_LOOK1 = re.compile(r"^T\.lookupOne\((\w+)=\$(\w+)\)\.id$")
+SIG_READER = "reader of a trigger column does not agree with the column's final value after the bundle"
+READER_KINDS = ("before", "after", "chain", "chain2", "lookup", "lookup1", "lookupA", "other", "summary")
+FIRST_KINDS = {"direct-before", "chain-before", "lookup-key-same-table", "lookup-key-other-table", "summary-groupby"}
+
+
+def reads_trigger(col, cols):
+  """Formula column of T that reads a trigger column (directly, through formula columns, or as a
+  lookup key): never offered as a recalcDeps candidate (no trigger column depends on another)."""
+  if not col["isFormula"]:
+    return False
+  f = col["formula"] or ""
+  if "lookup" in f:
+    return True
+  by_ref = {c["ref"]: c for c in cols}
+  return any(is_trigger(by_ref[x]) for x in compute_ups(cols).get(col["ref"], ()) if x in by_ref)
+
+
+def reader_kinds(trig, cols, aux):
+  """Which kinds of readers the trigger column has in this document (for the coverage counters;
+  `first` = something makes the engine visit the column's node before its own work item)."""
+  kinds = set()
+  tid = trig["id"]
+  by_id = {c["id"]: c for c in cols}
+  direct = {}
+  for c in cols:
+    if c["isFormula"]:
+      direct[c["id"]] = [n for n in re.findall(r"\$(\w+)", c["formula"] or "") if n in by_id]
+  def reaches(cid, seen):
+    for n in direct.get(cid, ()):
+      if n == tid or (n in direct and n not in seen and reaches(n, seen | {n})):
+        return True
+    return False
+  for c in cols:
+    if not c["isFormula"]:
+      continue
+    f = c["formula"] or ""
+    if re.search(r"lookup(Records|One)\(%s=" % re.escape(tid), f):
+      kinds.add("lookup-key-same-table")
+    if RE_DIRECT.match(f) and f[1:] == tid:
+      kinds.add("direct-before" if c["id"] < tid else "direct-after")
+    elif "lookup" not in f and reaches(c["id"], {c["id"]}):
+      kinds.add("chain-before" if c["id"] < tid else "chain-after")
+  for t in aux:
+    if t["summary_of"]:
+      if any(m["src"] == trig["ref"] for m in t["meta"]):
+        kinds.add("summary-groupby")
+    elif any(m["isFormula"] and re.search(r"T\.lookup(Records|One)\(%s=" % re.escape(tid), m["formula"] or "") for m in t["meta"]):
+      kinds.add("lookup-key-other-table")
+  return kinds
+
+
+def _plain(v):
+  return v is None or isinstance(v, (bool, int, float, str))
+
+
+def check_readers(after, aux):
+  """Clause (2): every recognised reader agrees with the FINAL cells of T.  Returns [detail...]."""
+  bad = []
+  by_id = {c["id"]: c for c in after["cols"]}
+  rows = after["rows"]
+  cells = after["cells"]
+  n_checked = 0
+
+  def colvals(cid):
+    c = by_id.get(cid)
+    if c is None:
+      return None
+    vals = [cells.get((r, c["ref"]), "<none>") for r in rows]
+    return vals if all(_plain(v) for v in vals) else None
+
+  def count_eq(keys, v):
+    return sum(1 for k in keys if same_value(k, v))
+
+  for c in after["cols"]:
+    if not c["isFormula"]:
+      continue
+    f = (c["formula"] or "").strip()
+    got = [cells.get((r, c["ref"]), "<none>") for r in rows]
+    m = RE_DIRECT.match(f)
+    if m:
+      src = colvals(m.group(1))
+      if src is None:
+        continue
+      n_checked += 1
+      for r, g, e in zip(rows, got, src):
+        if not same_value(g, e):
+          bad.append("T.%s[%d] = %r but $%s = %r" % (c["id"], r, g, m.group(1), e))
+      continue
+    m = RE_LOOKN.match(f) or RE_LOOK1.match(f)
+    if m:
+      keys, vals = colvals(m.group(1)), colvals(m.group(2))
+      if keys is None or vals is None or by_id[m.group(1)]["type"] != by_id[m.group(2)]["type"]:
+        continue      # (a key of another type is converted by the lookup: not modelled here)
+      n_checked += 1
+      for r, g, v in zip(rows, got, vals):
+        if RE_LOOKN.match(f):
+          e = count_eq(keys, v)
+        else:
+          e = min([r2 for r2, k in zip(rows, keys) if count_eq([k], v)] or [0])
+        if not same_value(g, e):
+          bad.append("T.%s[%d] = %r but %s gives %r (key column %r)" % (c["id"], r, g, f, e, keys))
+  for t in aux:
+    if t["summary_of"]:
+      gcols = [m for m in t["meta"] if m["src"]]
+      src_ids = []
+      by_ref = {c["ref"]: c for c in after["cols"]}
+      for m in gcols:
+        sc = by_ref.get(m["src"])
+        src_ids.append(sc["id"] if sc else None)
+      if not gcols or None in src_ids or "count" not in t["cols"]:
+        continue
+      svals = [colvals(x) for x in src_ids]
+      if any(v is None for v in svals):
+        continue
+      n_checked += 1
+      exp = {}
+      for tup in zip(*svals):
+        exp[tup] = exp.get(tup, 0) + 1
+      gotd = {}
+      for i in range(len(t["rows"])):
+        tup = tuple(t["cols"][m["id"]][i] for m in gcols)
+        gotd[tup] = gotd.get(tup, 0) + t["cols"]["count"][i]
+      gotd = {k: v for k, v in gotd.items() if v}
+      try:
+        same = (gotd == exp and len(t["rows"]) == len(exp))
+      except Exception:
+        same = True
+      if not same:
+        bad.append("summary table %s has groups %r but T has %r" % (t["id"], sorted(gotd.items(), key=repr), sorted(exp.items(), key=repr)))
+    else:
+      for m in t["meta"]:
+        mm = RE_LOOKN.match((m["formula"] or "").strip()) if m["isFormula"] else None
+        if not mm or mm.group(2) not in t["cols"] or m["id"] not in t["cols"]:
+          continue
+        keys = colvals(mm.group(1))
+        ktype = [x["type"] for x in t["meta"] if x["id"] == mm.group(2)]
+        if keys is None or not all(_plain(v) for v in t["cols"][mm.group(2)]) or ktype != [by_id[mm.group(1)]["type"]]:
+          continue
+        n_checked += 1
+        for r, g, v in zip(t["rows"], t["cols"][m["id"]], t["cols"][mm.group(2)]):
+          e = count_eq(keys, v)
+          if not same_value(g, e):
+            bad.append("%s.%s[%d] = %r but %s gives %r (key column %r)" % (t["id"], m["id"], r, g, m["formula"], e, keys))
+  return bad, n_checked
 
 
 # ------------------------------------------------------------------------------- bundle description
@@ -311,8 +534,8 @@ def reference(trig, descs, before, after, ups):
   changed_cfg_or_schema = False
 
   def note(r):
-    return info.setdefault(r, {"prot_at": None, "prot_kind": None, "prot_same": False, "stale": False,
-                               "readd": False, "trig_at": None})
+    return info.setdefault(r, {"prot_at": None, "prot_kind": None, "prot_same": False, "prot_trim": False, "stale": False,
+                               "readd": False, "trig_at": None, "trig_seen": False, "trig_with_prot": False})
 
   def upstream_writes(r, f):
     k = 0
@@ -352,6 +575,11 @@ def reference(trig, descs, before, after, ups):
             nt = note(r)
             nt["prot_kind"] = "docupdate" if s["doc"] else "update"
             nt["prot_same"] = (r, c) not in diff
+            # what trim_update_action does to a user-requested update: the column is dropped when no
+            # row of the request changes it, the row when none of its (remaining) cells changes; only
+            # then the doc action - which sets the exemption - does not name the cell
+            nt["prot_trim"] = (not s["doc"]) and (all((r2, c) not in diff for r2 in s["rows"])
+                                                   or all((r, x) not in diff for x in s["cols"]))
           if when == 0:
             for dep in deps:
               if dep in s["cols"]:
@@ -384,9 +612,12 @@ def reference(trig, descs, before, after, ups):
       changed_cfg_or_schema = True
     elif d["k"] == "doc" and not d["tie_ok"]:
       changed_cfg_or_schema = True
+    for r in must | may:
+      note(r)["trig_seen"] = True
     for r in prot:
       st[r] = NO
       note(r)["prot_at"] = i
+      note(r)["trig_with_prot"] = r in must or r in may
     for r in must - prot:
       st[r] = MUST
       note(r)["trig_at"] = i
@@ -399,9 +630,26 @@ def reference(trig, descs, before, after, ups):
   return out
 
 
-def classify_extra(nt, trig_before):
-  """A cell was evaluated although the reference says it must not be: which (known) shape?"""
+SIG_EXPLICIT = "explicit value set in the last user action of the bundle was recalculated"
+
+
+def exempt_by_last(nt):
+  """The LAST user action of the bundle sets the cell through a record update that reaches the doc
+  action (not trimmed away): the engine holds an exemption for it when it recalculates.  None of the
+  recorded findings overrides such an exemption (they are about exemptions that were never set, were
+  cleared by a later user action, or about which cells get invalidated), so a recalculation of such a
+  cell is never attributed to one of them."""
+  return nt["prot_kind"] in ("update", "docupdate") and nt["prot_at"] == nt["n"] - 1 and not nt["prot_trim"]
+
+
+def classify_extra(nt, trig_before, in_residue=False):
+  """A cell was evaluated although the reference says it must not be: which (known) shape?  Each
+  recorded finding is named only when its own recorded condition holds."""
   last = nt["n"] - 1
+  if exempt_by_last(nt):
+    return SIG_EXPLICIT
+  if in_residue:
+    return SIG_FAILED
   if nt["readd"]:
     return SIG_READD
   if nt["stale"]:
@@ -409,13 +657,16 @@ def classify_extra(nt, trig_before):
   if nt["prot_kind"] in ("add", "docadd") and trig_before["when"] == 0 and trig_before["deps"] \
      and (nt["prot_kind"] == "docadd" or trig_before["ref"] not in trig_before["deps"]):
     return SIG_ADD
-  if nt["prot_kind"] in ("update", "docupdate") and nt["prot_at"] is not None and nt["prot_at"] < last:
+  if nt["prot_kind"] in ("update", "docupdate") and nt["prot_at"] is not None and nt["prot_at"] < last and nt["trig_seen"]:
     return SIG_LAST
-  if nt["prot_kind"] == "update" and nt["prot_same"]:
+  if nt["prot_kind"] == "update" and nt["prot_trim"]:
     return SIG_TRIM
   if nt["prot_kind"] is None:
     return "cell recalculated although no recalcDeps cell of the row was written or recomputed and the row was not updated"
-  return "explicit value set in the last user action of the bundle was recalculated"
+  if nt["prot_kind"] in ("add", "docadd"):
+    return ("value supplied for a new record is recalculated outside the recorded condition (recalcWhen not DEFAULT, or "
+            "recalcDeps empty or containing the column itself)")
+  return "explicit value set by an earlier user action was recalculated although nothing triggered the cell"
 
 
 def classify_missing(nt):
@@ -523,6 +774,14 @@ def judge_bundle(live, bundle, J, bi):
     return res
   if after is None:
     return res
+  aux = live.read_aux()
+  bad, nchk = check_readers(after, aux)
+  J.count("reader_columns_checked", nchk)
+  if bad:
+    J.findings.append((SIG_READER, "%s; bundle %r" % ("; ".join(bad[:3]), bundle), bi))
+  nested = {}
+  for (cid, hit) in live.nested:
+    nested[cid] = nested.get(cid, False) or hit
   name2ref_after = {c["id"]: c["ref"] for c in after["cols"]}
   ev = {}
   for (cid, r) in trace:
@@ -552,7 +811,7 @@ def judge_bundle(live, bundle, J, bi):
       if r not in ref:
         J.findings.append(("evaluated a row that does not exist after the bundle", "row %r" % r, bi))
         continue
-      sig = SIG_FAILED if r in residue else classify_extra(ref[r], trig)
+      sig = classify_extra(ref[r], trig, r in residue)
       J.findings.append((sig, "column %s [%s] row %d evaluated; bundle %r" % (trig["id"], cfgs, r, bundle), bi))
     for r in sorted(must - E):
       sig = classify_missing(ref[r])
@@ -570,6 +829,27 @@ def judge_bundle(live, bundle, J, bi):
                                trig["id"], r, got, exp, base, r in E, bundle), bi))
     if must or any(nt["prot_at"] is not None for nt in ref.values()):
       interesting = True
+    # coverage: the situation "the last user action sets the cell AND triggers it", by reader kind
+    xt = [r for r, nt in ref.items() if exempt_by_last(nt) and nt["trig_with_prot"]]
+    if trig["id"] in nested:
+      J.count("nested_first_visit_of_trigger_column")
+      if nested[trig["id"]]:
+        J.count("nested_first_visit_with_exempt_dirty_rows")
+    if xt:
+      kinds = reader_kinds(trig, before["cols"], aux)
+      J.count("xt_cells", len(xt))
+      J.count("xt_bundles")
+      J.count("xt_mode:" + WHEN_NAME.get(trig["when"], "?"))
+      for k in sorted(kinds) or ["none"]:
+        J.count("xt_reader:" + k)
+      if nested.get(trig["id"]):
+        J.count("xt_with_nested_first_visit")
+        for k in sorted(kinds & FIRST_KINDS):
+          J.count("xt_nested:" + k)
+    elif any(nt["prot_at"] == nt["n"] - 1 and nt["prot_kind"] in ("add", "docadd") for nt in ref.values()):
+      kinds = reader_kinds(trig, before["cols"], aux)
+      for k in sorted(kinds) or ["none"]:
+        J.count("xadd_reader:" + k)
     op = None if flags - {"values converted"} else model_op(trig, descs, before, ups)
     if "after failed bundle" in flags:
       J.count("bundles_after_failed")
@@ -637,8 +917,20 @@ class Gen(object):
                            "deps": rng.choice([[], ["A"], ["F"], ["A", "C"], ["self"], ["A", "self"], ["H", "D"],
                                                ["G"], ["C", "F", "self"]]),
                            "text": rng.random() < 0.25})
+    random_readers = any("readers" not in ts for ts in trig_specs)
     for ts in trig_specs:
-      self.add_trigger(live, J, ts)
+      ts["col"] = self.add_trigger(live, J, ts)
+    if random_readers and rng.random() < 0.8:
+      # readers of the trigger columns: 1-3 kinds per column, at most one summary table per document
+      pool = list(READER_KINDS)
+      for ts in trig_specs:
+        if rng.random() < 0.8:
+          ts["readers"] = rng.sample(pool, rng.choice([1, 1, 2, 3]))
+          if "summary" in ts["readers"]:
+            pool.remove("summary")
+    for ts in trig_specs:
+      if ts.get("col"):
+        self.add_readers(live, J, ts["col"], ts.get("readers") or [])
     st = live.read()
     n = rng.choice([0, 2, 3, 4])
     if n:
@@ -657,14 +949,62 @@ class Gen(object):
     if names and "self" not in ts["deps"] and rng.random() < 0.5:
       # the encoding DuplicateTable uses: one bulk value holding the encoded list
       info["recalcDeps"] = [["L"] + [by_id[d] for d in names]]
-      judge_bundle(live, [["AddColumn", T, nm, info]], J, len(live.log))
-      return
+      res = judge_bundle(live, [["AddColumn", T, nm, info]], J, len(live.log))
+      return nm if res.ok else None
     res = judge_bundle(live, [["AddColumn", T, nm, info]], J, len(live.log))
-    if not res.ok or not ts["deps"]:
-      return
+    if not res.ok:
+      return None
+    if not ts["deps"]:
+      return nm
     ref = res.ret[0]["colRef"]
     deps = [by_id[d] for d in names] + ([ref] if "self" in ts["deps"] else [])
     judge_bundle(live, [["UpdateRecord", "_grist_Tables_column", ref, {"recalcDeps": ["L"] + deps}]], J, len(live.log))
+    return nm
+
+  def add_readers(self, live, J, b, kinds):
+    """Readers of the trigger column `b`.  Column ids starting with "A?" sort before every trigger
+    column id ("B<n>", or "R<n>" after a rename), ids starting with "Z" after all of them."""
+    def col(name, formula):
+      judge_bundle(live, [["AddColumn", T, name, {"type": "Any", "isFormula": True, "formula": formula}]], J, len(live.log))
+    for k in kinds:
+      J.count("doc_reader:" + k)
+      if k == "before":
+        col(self.name("Ab"), "$%s" % b)
+      elif k == "after":
+        col(self.name("Z"), "$%s" % b)
+      elif k == "chain":
+        # Aa < b < Zc : Aa is evaluated first, pulls Zc up, which pulls b up (nested in nested)
+        z = self.name("Zc")
+        col(z, "$%s" % b)
+        col(self.name("Aa"), "$%s" % z)
+      elif k == "chain2":
+        # Ac < Ad < b
+        d = self.name("Ad")
+        col(d, "$%s" % b)
+        col(self.name("Ac"), "$%s" % d)
+      elif k == "lookup":
+        col(self.name("Zl"), "len(T.lookupRecords(%s=$%s))" % (b, b))
+      elif k == "lookup1":
+        col(self.name("Am"), "T.lookupOne(%s=$%s).id" % (b, b))
+      elif k == "lookupA":
+        st = live.read()
+        typ = [c["type"] for c in st["cols"] if c["id"] == b][0]
+        col(self.name("Zk"), "len(T.lookupRecords(%s=$%s))" % (b, "A" if typ == "Int" else "D"))
+      elif k == "other":
+        st = live.read()
+        typ = [c["type"] for c in st["cols"] if c["id"] == b][0]
+        u = self.name("U")
+        judge_bundle(live, [["AddTable", u, [{"id": "k", "type": typ, "isFormula": False, "formula": ""},
+                                             {"id": "n", "type": "Any", "isFormula": True,
+                                              "formula": "len(T.lookupRecords(%s=$k))" % b}]]], J, len(live.log))
+        ks = [0, 1, 2, 3, 5, 10, 50] if typ == "Int" else ["", "!", "x", "x!", "foo", "y"]
+        judge_bundle(live, [["BulkAddRecord", u, [None] * len(ks), {"k": ks}]], J, len(live.log))
+      elif k == "summary":
+        st = live.read()
+        bref = [c["ref"] for c in st["cols"] if c["id"] == b]
+        tref = [t["id"] for t in live.doc.meta("_grist_Tables") if t["tableId"] == T]
+        if bref and tref:
+          judge_bundle(live, [["CreateViewSection", tref[0], 0, "record", [bref[0]], None]], J, len(live.log))
 
   # ---- values
   def value(self, col, st, row=None, same_p=0.3):
@@ -719,6 +1059,42 @@ class Gen(object):
     same_p = rng.choice([0.1, 0.4])
     return ["UpdateRecord", T, r, {c["id"]: self.value(c, st, r, same_p) for c in cols}]
 
+  def ua_explicit_dep(self, st, bulk=False):
+    """One update that changes something the trigger column reacts to (a recalcDeps column, the data
+    column under a formula dependency; any plain column for MANUAL_UPDATES / NEVER / no deps) AND
+    sets the trigger column explicitly."""
+    rng = self.rng
+    trigs = [c for c in self.writable(st) if is_trigger(c)]
+    if not trigs or not st["rows"]:
+      return None
+    c = rng.choice(trigs)
+    by_ref = {x["ref"]: x for x in st["cols"]}
+    plain = [x for x in self.writable(st) if not is_trigger(x)]
+    ups = compute_ups(st["cols"])
+    causes = []
+    if c["when"] == 0 and isinstance(c["deps"], list):
+      for d in c["deps"]:
+        if d in by_ref and d != c["ref"]:
+          causes += [by_ref[x] for x in ups.get(d, ())] if by_ref[d]["isFormula"] else [by_ref[d]]
+    causes = [x for x in causes if x in plain] or plain
+    if not causes:
+      return None
+    cause = rng.choice(causes)
+    cols = [cause, c] + [x for x in plain + trigs if x is not cause and x is not c and rng.random() < 0.15]
+    rows = rng.sample(st["rows"], min(len(st["rows"]), rng.randint(2, 3))) if bulk else [rng.choice(st["rows"])]
+    def fresh(col, r):
+      for _ in range(6):
+        v = self.value(col, st, None)
+        if v != st["cells"].get((r, col["ref"])):
+          return v
+      return v
+    vals = {}
+    for x in cols:
+      vals[x["id"]] = [fresh(x, r) if (x is cause or x is c) and rng.random() < 0.85 else self.value(x, st, r, 0.5) for r in rows]
+    if bulk:
+      return ["BulkUpdateRecord", T, rows, vals]
+    return ["UpdateRecord", T, rows[0], {k: v[0] for k, v in vals.items()}]
+
   def ua_remove(self, st):
     rng = self.rng
     if not st["rows"]:
@@ -733,7 +1109,7 @@ class Gen(object):
     if not trigs:
       return None
     c = rng.choice(trigs)
-    cands = [x for x in st["cols"] if not is_trigger(x)]
+    cands = [x for x in st["cols"] if not is_trigger(x) and not reads_trigger(x, st["cols"])]
     vals = {}
     if rng.random() < 0.6:
       vals["recalcWhen"] = rng.choice([0, 0, 1, 2])
@@ -790,7 +1166,9 @@ class Gen(object):
 
   def record_ua(self, st):
     rng = self.rng
-    k = rng.choice(["add", "add", "badd", "upd", "upd", "upd", "bupd", "bupd", "rm"])
+    k = rng.choice(["add", "add", "badd", "upd", "upd", "upd", "bupd", "bupd", "rm", "xdep", "xdep", "bxdep"])
+    if k in ("xdep", "bxdep"):
+      return self.ua_explicit_dep(st, bulk=(k == "bxdep")) or self.ua_update(st)
     if k == "add":
       return self.ua_add(st)
     if k == "badd":
@@ -900,9 +1278,14 @@ def run_history(seed_key, n_bundles, trig_specs=None):
 
 # ------------------------------------------------------------------------------- exhaustive small scope
 
-def small_scope(cfg_index, pairs, rng):
-  """One configuration (recalcWhen x recalcDeps) on a 2-row table; every single user action of a
-  small vocabulary, then ordered pairs of them as 2-action bundles."""
+READER_VARIANTS = [[], ["before"], ["after"], ["chain"], ["chain2"], ["lookup"], ["lookup1", "lookupA"], ["other"], ["summary"],
+                   ["before", "lookup", "other"]]
+
+
+def small_scope(cfg_index, pairs, rng, readers=()):
+  """One configuration (recalcWhen x recalcDeps) on a 2-row table, with the given kinds of readers of
+  the trigger column; every single user action of a small vocabulary, then ordered pairs of them as
+  2-action bundles."""
   whens = [0, 1, 2]
   depsets = [[], ["A"], ["F"], ["self"], ["A", "self"], ["A", "F"], ["C"], ["F", "self"]]
   when = whens[cfg_index % 3]
@@ -910,7 +1293,7 @@ def small_scope(cfg_index, pairs, rng):
   live = Live()
   J = Judge()
   g = Gen(rng)
-  g.setup(live, J, [{"when": when, "deps": deps, "text": False}])
+  g.setup(live, J, [{"when": when, "deps": deps, "text": False, "readers": list(readers)}])
   st = live.read()
   if len(st["rows"]) < 2:
     judge_bundle(live, [["BulkAddRecord", T, [None, None], {"A": [1, 2], "C": [3, 4]}]], J, len(live.log))
@@ -1012,8 +1395,10 @@ def _worker(args):
     try:
       if kind == "hist":
         live, J = run_history("C15/%s" % it[0], it[1])
+      elif kind == "rwit":
+        live, J = run_reader_witness(it[0])
       else:
-        live, J = small_scope(it[0], it[1], random.Random("C15/small/%s/%s" % (it[0], it[2])))
+        live, J = small_scope(it[0], it[1], random.Random("C15/small/%s/%s/%s" % (it[0], it[2], "+".join(it[3]))), it[3])
       done.append((live, J))
     except Exception:
       import traceback
@@ -1091,6 +1476,37 @@ def witnesses():
           ("readd", SIG_READD, w_readd), ("failed", SIG_FAILED, w_failed)]
 
 
+def reader_witnesses():
+  """The situation of clause (1) with each kind of reader, as fixed inputs: ONE user action changes a
+  recalcDeps cell (MANUAL_UPDATES: any cell) and sets the trigger cell explicitly - the explicit value
+  must win and every reader must show it; then the same for a new record (DEFAULT with recalcDeps:
+  the recorded finding SIG_ADD, nothing else), and a plain dependency change must still recalculate."""
+  out = []
+  for kind in READER_KINDS:
+    for (when, deps) in ((0, ["A"]), (2, []), (0, ["A", "self"])):
+      def build(kind=kind, when=when, deps=deps):
+        live, J = witness_doc(when, deps, 3)
+        Gen(random.Random(0)).add_readers(live, J, "B1", [kind])
+        return live, J, [[["UpdateRecord", T, 2, {"A": 20, "B1": 80}]],
+                         [["BulkUpdateRecord", T, [1, 2, 3], {"A": [31, 32, 1], "B1": [90, 80, 95]}]],
+                         [["UpdateRecord", T, 1, {"C": 7, "B1": 60}]],
+                         [["AddRecord", T, None, {"A": 4, "B1": 50}]],
+                         [["BulkAddRecord", T, [None, None], {"C": [1, 2], "B1": [80, 81]}]],
+                         [["UpdateRecord", T, 3, {"A": 40}]]]
+      out.append(("%s/%s%s" % (kind, WHEN_NAME[when], "+".join([""] + deps)), build))
+  return out
+
+
+def run_reader_witness(idx):
+  name, build = reader_witnesses()[idx]
+  live, J, bundles = build()
+  for b in bundles:
+    judge_bundle(live, b, J, len(live.log))
+  J.count("reader_witness_" + ("held" if all(f[0] == SIG_ADD for f in J.findings) else "failed"))
+  J.findings = [(s_, "[reader witness %s] %s" % (name, d), bi) for (s_, d, bi) in J.findings]
+  return live, J
+
+
 def replay_witnesses(ck):
   common.setup_repo_path()
   runs = []
@@ -1115,13 +1531,28 @@ def replay_witnesses(ck):
 
 def run(ck):
   ck.rule = ("histories on a live engine: one table with plain, formula and 1-3 trigger columns (recalcWhen 0/1/2; recalcDeps "
-             "empty / one / several / itself / formula columns), bundles of adds (with/without supplied values), updates and bulk "
-             "updates (30% same-value cells), removals, multi-action bundles, configuration changes, schema changes, mixed "
-             "bundles, undo; plus per configuration (3 x 8) every single action and ordered pairs of a 15-action vocabulary; "
+             "empty / one / several / itself / formula columns), in 80% of the documents with READERS of the trigger columns "
+             "(formula columns `$B` whose ids sort before / after the trigger column, chains of them, lookupRecords / lookupOne "
+             "keyed on the trigger column from the same and from another table, a summary table grouped by it); bundles of adds "
+             "(with/without supplied values), updates and bulk updates (30% same-value cells; single updates that change a "
+             "dependency AND set the trigger cell), removals, multi-action bundles, configuration changes, schema changes, mixed "
+             "bundles, undo; plus per configuration (3 x 8) x reader kind (9) every single action of a 15-action vocabulary "
+             "(quick: all 9 kinds for DEFAULT [A] / DEFAULT [F] / MANUAL_UPDATES [] / DEFAULT [A, self], a third of the kinds, "
+             "rotating with the seed, for the other configurations), and ordered pairs of it per configuration x 10 reader "
+             "variants (quick: 18 sampled pairs, one variant per configuration); plus fixed reader witnesses (9 kinds x 3 "
+             "configurations); "
              "non-trivial = a bundle in which some trigger cell must be recalculated or is set explicitly; distinct by bundle")
-  ck.assumptions = ["recalcDeps are plain data columns, formula columns over plain data columns, or the column itself",
+  ck.assumptions = ["recalcDeps are plain data columns, formula columns over plain data columns, or the column itself "
+                    "(never a column that reads a trigger column)",
                     "written values have the column's type; row ids within one request distinct",
-                    "model tie skipped (oracle still applied) for bundles with record edits after a schema change"]
+                    "model tie skipped (oracle still applied) for bundles with record edits after a schema change",
+                    "readers of trigger columns (nested first visits of the column's node before its own evaluation: formula "
+                    "columns sorting before it, lookup keys, summary group-by) are judged by the DIRECT ORACLE only (evaluated "
+                    "cells within the property's [must, may] interval, explicit values of the last user action win, readers "
+                    "agree with the final trigger cells); the Lean model has no evaluation order - the tie only checks that the "
+                    "engine's evaluated set equals the model's in documents with readers too",
+                    "the counters nested_first_visit_* / xt_nested:* come from a run-time wrapper of Engine._recompute_step "
+                    "(coverage evidence only; no verdict depends on it)"]
   ck.lean(["GristProps.C15"])
   quick = ck.tier == "quick"
   n_hist = 96 if quick else 6000
@@ -1130,8 +1561,20 @@ def run(ck):
   nv = 15
   allpairs = [(i, k) for i in range(nv) for k in range(nv)]
   for ci in range(24):
-    pairs = ck.rng.sample(allpairs, 18) if quick else allpairs
-    items.append(("small", (ci, pairs, ck.seed)))
+    if quick:
+      # ordered pairs: a sample, with one reader variant per configuration (rotating with the seed)
+      items.append(("small", (ci, ck.rng.sample(allpairs, 18), ck.seed, READER_VARIANTS[(ci * 7 + ck.seed) % len(READER_VARIANTS)])))
+    else:
+      for rv in READER_VARIANTS:
+        items.append(("small", (ci, allpairs, ck.seed, rv)))
+    # every single action of the vocabulary, for every configuration x every kind of reader (quick: all kinds for
+    # the core configurations DEFAULT [A] / DEFAULT [F] / MANUAL_UPDATES [] / DEFAULT [A, self], a rotating third
+    # of the kinds for the others)
+    for ki, k in enumerate(READER_KINDS):
+      if not quick or ci in (2, 3, 6, 12) or (ci + ki + ck.seed) % 3 == 0:
+        items.append(("small", (ci, [], ck.seed, [k])))
+  for i in range(len(reader_witnesses())):
+    items.append(("rwit", (i,)))
   # one job per worker process: the model driver is started once per job
   W = min(16, os.cpu_count() or 1) if not quick else min(12, os.cpu_count() or 1)
   items.sort(key=lambda x: x[0])
